@@ -3,6 +3,7 @@ package props
 import (
 	"fmt"
 	"go/token"
+	"go/types"
 	"sort"
 	"strings"
 
@@ -85,6 +86,7 @@ func checkC18(r *core.Run) {
 		return
 	}
 	c18NilKey(r, p)
+	c18Rings(r, p)
 	cfg := an.BoundsConfig{
 		TaintedFields: map[string]bool{"client/network.BCmsg.pl": true},
 		// outgoing-message construction: the payload handed to it is only copied into our own send
@@ -258,4 +260,123 @@ func c18NilKey(r *core.Run, p *core.Program) {
 	}
 	sort.Strings(bad)
 	r.Check(len(bad) == 0 && n >= 4, rule, "session-key", "-", fmt.Sprintf("%d dereferences of the session key, each after a nil test (in the function or at all of its call sites)", n), strings.Join(bad, "; "))
+}
+
+// c18Rings: per-connection ring buffers (a slice or array field indexed by a cursor field of the same
+// struct, the cursor being reset to 0 by a wrap test "cursor == K"). The cursor is connection state, not
+// payload, so the bounds rule does not generate an obligation for it - but how far it advances is driven by
+// the peer. With capacity C (array length, or the constant of the dominating "len(S) < C" being false), every
+// use S[cursor] must be dominated by the wrap test, and with c = number of increments of the cursor between
+// the test's "not equal" outcome and the use (0: test-then-use, 1: advance-or-wrap-then-use), K + c <= C.
+// A use that is not preceded by the wrap test sees cursor == K when the buffer has just filled up.
+func c18Rings(r *core.Run, p *core.Program) {
+	const rule = "R-C18-bounds"
+	n := 0
+	var bad []string
+	for _, f := range p.ModuleFuncs() {
+		if pk := core.FuncPkg(f); pk == nil || !strings.HasSuffix(pk.Path(), "client/network") {
+			continue
+		}
+		type wrap struct {
+			blk *ssa.BasicBlock
+			f   string
+			k   int64
+		}
+		var wraps []wrap
+		for _, b := range f.Blocks {
+			iff, ok := b.Instrs[len(b.Instrs)-1].(*ssa.If)
+			if !ok {
+				continue
+			}
+			bo, ok := iff.Cond.(*ssa.BinOp)
+			if !ok || (bo.Op != token.EQL && bo.Op != token.GEQ) {
+				continue
+			}
+			kc, isC := an.ConstOf(bo.Y)
+			if !isC {
+				continue
+			}
+			fe := an.Expr(bo.X)
+			for _, ins := range b.Succs[0].Instrs {
+				if st, ok := ins.(*ssa.Store); ok && an.Expr(st.Addr) == "&"+fe && an.Expr(st.Val) == "0" {
+					wraps = append(wraps, wrap{b, fe, kc.Int64()})
+				}
+			}
+		}
+		for _, w := range wraps {
+			isInc := func(ins ssa.Instruction) bool {
+				st, ok := ins.(*ssa.Store)
+				return ok && an.Expr(st.Addr) == "&"+w.f && an.Expr(st.Val) == "("+w.f+" + 1)"
+			}
+			isOther := func(ins ssa.Instruction) bool {
+				st, ok := ins.(*ssa.Store)
+				return ok && an.Expr(st.Addr) == "&"+w.f && an.Expr(st.Val) != "("+w.f+" + 1)" && an.Expr(st.Val) != "0"
+			}
+			an.Instrs(f, func(i ssa.Instruction) {
+				ia, ok := i.(*ssa.IndexAddr)
+				if !ok || an.Expr(ia.Index) != w.f {
+					return
+				}
+				n++
+				use := ia.Block()
+				where := fmt.Sprintf("%s uses [%s] at %s", core.FuncName(f), w.f, p.Pos(ia.Pos()))
+				if !(w.blk.Dominates(use) && w.blk != use) {
+					bad = append(bad, where+" before the wrap test of that cursor (the cursor equals the capacity when the buffer has just filled up)")
+					return
+				}
+				// capacity
+				capv := int64(-1)
+				if at, ok := an.Deref(ia.X.Type()).Underlying().(*types.Array); ok {
+					capv = at.Len()
+				} else {
+					se := an.Expr(ia.X)
+					for _, dc := range an.DomConds(use) {
+						var c int64
+						if _, err := fmt.Sscanf(dc.Cond, "(builtin.len("+se+") < %d)", &c); err == nil && !dc.True {
+							capv = c
+						}
+					}
+				}
+				if capv < 0 {
+					bad = append(bad, where+": the capacity of the buffer is not established on this path")
+					return
+				}
+				// increments between the test's false edge and the use: max over paths
+				maxInc := 0
+				var walk func(b *ssa.BasicBlock, inc int, seen map[*ssa.BasicBlock]bool)
+				walk = func(b *ssa.BasicBlock, inc int, seen map[*ssa.BasicBlock]bool) {
+					if seen[b] {
+						return
+					}
+					seen[b] = true
+					defer delete(seen, b)
+					for _, ins := range b.Instrs {
+						if b == use && ins == ssa.Instruction(ia) {
+							if inc > maxInc {
+								maxInc = inc
+							}
+							return
+						}
+						if isInc(ins) {
+							inc++
+						}
+						if isOther(ins) {
+							inc += 1000
+						}
+					}
+					for _, sc := range b.Succs {
+						if sc != w.blk {
+							walk(sc, inc, seen)
+						}
+					}
+				}
+				walk(w.blk.Succs[1], 0, map[*ssa.BasicBlock]bool{})
+				if w.k+int64(maxInc) > capv {
+					bad = append(bad, fmt.Sprintf("%s: wrap at %d, up to %d increment(s) before the use, capacity %d", where, w.k, maxInc, capv))
+				}
+			})
+		}
+	}
+	sort.Strings(bad)
+	r.Check(len(bad) == 0 && n >= 3, rule, "ring-cursors", "-", fmt.Sprintf("%d uses of a ring cursor, each after its wrap test with wrap constant + increments <= capacity", n), strings.Join(bad, "; "))
 }
